@@ -190,7 +190,7 @@ void run_C10(void) {
             case_end(ell >= 1);
           }
   // sampled lengths in [0, 10000]
-  for (unsigned t = 0; t < (th ? 4000u : 200u); t++) {
+  for (unsigned t = 0; t < (th ? 30000u : 1000u); t++) {
     uint64_t h = mix64(t * 977 + 5);
     uint64_t ell = h % 10001;
     int k = (int)((h >> 20) % N_KERNELS), avx2 = (int)((h >> 24) & 1);
@@ -204,7 +204,7 @@ void run_C10(void) {
   // conversions
   static const uint64_t NN[] = {0, 1, 2, 3, 14, 16, 64, 1000, 4096};
   for (size_t i = 0; i < ARRAY_LEN(NN); i++)
-    for (unsigned rep = 0; rep < (th ? 60u : 6u); rep++) conv_case(NN[i], rep);
+    for (unsigned rep = 0; rep < (th ? 400u : 24u); rep++) conv_case(NN[i], rep);
   // block extract / save
   static const uint64_t BN[] = {2, 4, 8, 16, 32, 64, 4096};
   for (size_t i = 0; i < ARRAY_LEN(BN); i++)
